@@ -98,6 +98,7 @@ JOBS["C08"] = [
 
 JOBS["C07"] = [
     H("continuity", "beaconnet", "^TestC07Continuity$", {"shards": 12, "checks": 12, "timeout": 1500}, {"shards": 14, "checks": 250, "timeout": 3400}),
+    I("daemons", "internal/core", "^TestVerifC07Daemons$", {"shards": 6, "checks": 1, "timeout": 1500}, {"shards": 12, "checks": 6, "timeout": 3400}),
 ]
 
 JOBS["C19"] = [
@@ -149,7 +150,7 @@ RULES = {
            "{absent, hash of each chain, unknown 32 bytes, 5 bytes, the bytes of \"default\"} x endpoint in {PublicRand, ChainInfo, GetIdentity, SyncChain, PublicRandStream, GroupFile} called on the daemon's service methods, plus HTTP (real handler) "
            "/{hash}/info|public/latest|public/1 for every chain, /info, /public/latest, /public/1, bad hashes, /chains. Oracle: a reference routing function written from the statement says which chain must answer or that the request must be refused; "
            "an answer is attributed by verifying its signature / chain hash / identity key / group hash under each chain's own key material. Non-trivial: every case; distinct by chain set + storage + history + key seed (each case covers ~600 matrix cells, counted as matrix-cells).",
-    "C07": "a running network of real beacon handlers (scheme in 5, n0 in 3..5, t0 in range, 3 back-ends) is reshared by the harness playing internal/core's part: next epoch = fresh polynomial with the same secret, 0..n0-1 leavers, 0..2 joiners, "
+    "C07": "(daemons) four real daemons (in-package, loopback gRPC, real DKG): epoch 1 among three, then a resharing in which the fourth joins (its beacon loaded at start-up or later over the control API with a request context that ends), optionally one old member is dead and replaced, threshold kept or raised (the first case of shard k is a fixed corner). Oracle: chain info identical before/after on every member; every live member of the new group completes the new epoch; with a threshold of them up the chain reaches transition+3 on every one; all stored beacons verify under the unchanged key. (handlers) a running network of real beacon handlers (scheme in 5, n0 in 3..5, t0 in range, 3 back-ends) is reshared by the harness playing internal/core's part: next epoch = fresh polynomial with the same secret, 0..n0-1 leavers, 0..2 joiners, "
            "new threshold in range, transition at round now+2..5; each remainer gets TransitionNewGroup at a drawn tick before the transition, joiners are started with NewHandler+Transition at a drawn tick, leavers keep running with their old shares or are stopped. "
            "Oracle: chain info (hash, key, genesis time/seed, period, scheme, id) identical before/after; C01 (every Put verifies) + C02 (append-only, gap-free, no fork) across rounds rT-3..rT+5; when >= t1 members of the new group hold the new share in time "
            "every member of the new group follows the clock across the transition (no halted round); afterwards a valid partial made with a share of the previous polynomial is refused by every switched member, and with everything queued an observer given exactly "
